@@ -8,7 +8,7 @@ from typing import Dict, List
 from ..common import pmap
 
 PATTERN_SETS_AB = [
-    ["aa"], ["ab"], ["aaa"], ["aba"], ["aa", "bb"], ["aa", "aab"], ["aba", "bb"], ["ab", "ba"], ["aab", "bba"],
+    ["aa"], ["abba"], ["ab"], ["aaa"], ["aba"], ["aa", "bb"], ["aa", "aab"], ["aba", "bb"], ["ab", "ba"], ["aab", "bba"],
     ["a", "aaa"], ["abb", "bab"], ["aaa", "aba", "bb"], ["b"], ["aabb"], ["abab"],
 ]
 PATTERN_SETS_ABC = [["aa", "bc"], ["abc"], ["ab", "bc", "ca"], ["cc", "ac"]]
@@ -27,6 +27,7 @@ PACKS = {
     "itersyminf": dict(iterative=True, sym=True, inf=True),
     "pv2": dict(prefix_verified=2),
     "needrev": dict(parent_factory=True, expand=False, empty_prefix_verified=True),
+    "split": dict(split=True),
 }
 STATS = {
     "s0": (),
